@@ -116,6 +116,12 @@ def runStreamDuplex (t : String) (stall : Nat) : String :=
 
 def runStream (ws : List String) : String :=
   match ws with
+  | ["slowreader", t, "boundary"] =>
+    -- a message whose frame fills the read buffer exactly, a 10-byte one behind it, both queued at once
+    let big : Bytes := (List.range (if t = "F" then 65532 else 65535)).map fun i => ((i * 7) % 256).toUInt8
+    let ms : List Bytes := [[1], big, List.replicate 10 9]
+    let r := if t = "F" then runStreamE2E "F" "1" ms else runStreamE2E "T" "1" ms
+    if r.startsWith "model:" then r else "delivered=all"
   | ["slowreader", t] =>
     -- one byte, then three 64 KiB pieces already queued when the second readiness event is processed: the
     -- receive loop reads until WouldBlock whatever the callback's duration (time is not in the model)
